@@ -196,12 +196,14 @@ def gen() -> dict[str, Any]:
 # ---------------------------------------------------------------------------------------
 
 
-def run_driver(scenarios: list[dict], workdir: Path, tag: str, timeout_s: int = 600) -> list[dict]:
+def run_driver(scenarios: list[dict], workdir: Path, tag: str, timeout_s: int = 600, hashseed: str | None = None) -> list[dict]:
     job = workdir / f"job-{tag}.json"
     job.write_text(json.dumps({"scenarios": scenarios}))
     env = dict(os.environ)
     env["PYTHONPATH"] = f"{common.REPO}/src:{common.VERIF}"
     env.setdefault("PYTHONHASHSEED", "0")
+    if hashseed is not None:
+        env["PYTHONHASHSEED"] = hashseed
     p = subprocess.run(
         [sys.executable, "-m", "harness.c19_driver", str(job)],
         cwd=common.VERIF,
@@ -529,6 +531,8 @@ def make_configs(rng, thorough: bool) -> list[dict]:
     cfgs.append({"name": "B-mixed-seq", "kind": "map", "fn": "dict",
                  "items": [[{"t": "str", "v": "a"}, 5], [{"t": "tuple", "v": [ik(1), {"t": "str", "v": "u"}]}, 6], [{"t": "float", "v": 2.5}, 7]],
                  "parallel": False, "points": "all"})
+    # H: negative int keys (hash(-1) == hash(-2) in CPython; their names differ)
+    cfgs.append({"name": "H-negint-seq", "kind": "map", "fn": "affine", "items": [[ik(-1), 1], [ik(-2), 2], [ik(-3), 5]], "parallel": False, "points": "few"})
     # C: pool, one worker dies (others finish); every crash point of every key
     cfgs.append({"name": "C-int-pool", "kind": "map", "fn": "affine", "items": [[ik(3), 1], [ik(4), 2], [ik(5), 3]], "parallel": True, "workers": 2, "points": "all"})
     # D: scan.steady_state through the cache, sequential; event boundaries + some byte offsets
@@ -596,6 +600,16 @@ def phase2_groups(cfg: dict, fresh: dict, root: Path, ci: int, rng, thorough: bo
                  scenario(cfg, "rerun", d / "cache", d, parallel=rerun_par),
                  scenario(cfg, "rerun2", d / "cache", d)]
             out.append(({"cfg": cfg["name"], "mode": "seq", "point": [i, j, lab]}, g))
+        # the same event boundaries with user-space buffering of the written bytes (oracle only: the
+        # micro-step model writes through): a protocol that publishes a file before closing it leaves an
+        # empty or truncated final file here
+        for n, (i, j, lab) in enumerate(p for p in pts if p[1] == 0):
+            d = root / f"c{ci}-b{n}"
+            plan = {"match": "", "event": i, "byte": 0, "action": "exit"}
+            g = [scenario(cfg, "crash", d / "cache", d, plan=plan, buffered=True),
+                 scenario(cfg, "rerun", d / "cache", d),
+                 scenario(cfg, "rerun2", d / "cache", d)]
+            out.append(({"cfg": cfg["name"], "mode": "seq-buffered", "point": [i, 0, lab], "no_corr": True}, g))
         # chains: kill, kill the rerun too, then rerun
         n_chain = 8 if thorough else 3
         for n in range(min(n_chain, len(pts))):
@@ -621,6 +635,12 @@ def phase2_groups(cfg: dict, fresh: dict, root: Path, ci: int, rng, thorough: bo
                      scenario(cfg, "rerun", d / "cache", d, parallel=(n % 2 == 0)),
                      scenario(cfg, "rerun2", d / "cache", d, parallel=False)]
                 out.append(({"cfg": cfg["name"], "mode": "pool-exit", "key": ki, "point": [i, j, lab]}, g))
+                if j == 0:
+                    d = root / f"c{ci}-pb{n}"
+                    g = [scenario(cfg, "crash", d / "cache", d, plan=plan, buffered=True),
+                         scenario(cfg, "rerun", d / "cache", d, parallel=(n % 2 == 1)),
+                         scenario(cfg, "rerun2", d / "cache", d, parallel=False)]
+                    out.append(({"cfg": cfg["name"], "mode": "pool-exit-buffered", "key": ki, "point": [i, 0, lab], "no_corr": True}, g))
         # the whole process group is killed while one worker is mid-write (oracle only)
         for m in range(4 if thorough else 2):
             k = rng.choice(keys)
@@ -759,6 +779,25 @@ def _check_body(run: Run, rng, root: Path, thorough: bool, n_drivers: int, proof
             run.broken_correspondence.append(f"{cfg['name']}: {pb}")
         coq_cases.append((f"{cfg['name']}/clean", text))
     run.sample({"config": cfgs[0], "clean_run_events": [(e["kind"], e["path"], e["n"]) for e in p1_reps[0][1]["events"]]})
+
+    # ---- a repeated run in a NEW interpreter (other string-hash salt) must hit the disk too ----
+    np_idx = [i for i, c in enumerate(cfgs) if c["kind"] == "map" and ctxs[i] is not None and ctxs[i].unc_value is not None][:4]
+    if np_idx:
+        np_scs = [scenario(cfgs[i], "second-newproc", root / f"p1-{i}" / "cache", root / f"p1-{i}") for i in np_idx]
+        try:
+            np_reps = run_driver(np_scs, root, "p1-newproc", hashseed="4242")
+        except Exception as e:  # noqa: BLE001
+            run.broken_correspondence.append(f"new-interpreter rerun driver failed: {type(e).__name__}: {e}")
+            np_reps = []
+        for i, sc, rep in zip(np_idx, np_scs, np_reps):
+            dist["new-interpreter reruns"] = dist.get("new-interpreter reruns", 0) + 1
+            run.count_case(("p1-newproc", cfgs[i]["name"]), nontrivial=True)
+            bad = ctxs[i].result_ok(rep)
+            if bad:
+                violation(f"{cfgs[i]['name']}: repeated run in a new interpreter (PYTHONHASHSEED=4242): {bad}", cfgs[i], [p1[i][1], sc], {"mode": "second-run-new-interpreter"})
+            elif rep["calls"]:
+                violation(f"{cfgs[i]['name']}: repeated run in a new interpreter (PYTHONHASHSEED=4242) recomputed {len(rep['calls'])} result(s) instead of reading them from disk",
+                          cfgs[i], [p1[i][1], sc], {"mode": "second-run-new-interpreter"})
 
     # ---- known finding: two keys with the same file name ---------------------------------------
     col_reps = p1_reps[-1]
